@@ -25,8 +25,22 @@ def matrix():
             out.append("| %s | %s | %s | %s |" % (f[0], f[1].replace("|", "/"), f[2], f[3]))
     return "\n".join(out)
 
+def benign():
+    p = "/verif/benign/MATRIX.tsv"
+    if not os.path.exists(p):
+        return "(matrix not generated yet: run tools/benign_matrix.py)"
+    lines = open(p).read().splitlines()
+    out = [lines[0].lstrip("# "), "", "| change | alarms (must be none) | undecided | run and clean |", "|---|---|---|---|"]
+    for l in lines[1:]:
+        f = l.split("\t")
+        if len(f) >= 4:
+            what = ""
+            t = "/verif/benign/%s.txt" % f[0]
+            out.append("| %s | %s | %s | %s |" % (f[0], f[1].replace("|", "/"), f[2].replace("|", "/"), f[3]))
+    return "\n".join(out)
+
 s = open("/verif/DESIGN.md").read()
-for name, fn in (("counts", counts), ("matrix", matrix)):
+for name, fn in (("counts", counts), ("matrix", matrix), ("benign", benign)):
     s = re.sub(r"(<!-- BEGIN:%s -->).*?(<!-- END:%s -->)" % (name, name), lambda m: m.group(1) + "\n" + fn() + "\n" + m.group(2), s, flags=re.S)
 open("/verif/DESIGN.md", "w").write(s)
 print("ok")
